@@ -105,16 +105,22 @@ func (rate *Ratelimiter) Allow(ip netip.Addr) bool {
 
 	// make new entry if not found
 	if entry == nil {
-		entry = new(RatelimiterEntry)
-		entry.tokens = maxTokens - packetCost
-		entry.lastTime = rate.timeNow()
 		rate.mu.Lock()
-		rate.table[ip] = entry
-		if len(rate.table) == 1 {
-			rate.stopReset <- struct{}{}
+		// look again under the write lock: another caller may have
+		// inserted an entry for this address since the lookup above
+		entry = rate.table[ip]
+		if entry == nil {
+			entry = new(RatelimiterEntry)
+			entry.tokens = maxTokens - packetCost
+			entry.lastTime = rate.timeNow()
+			rate.table[ip] = entry
+			if len(rate.table) == 1 {
+				rate.stopReset <- struct{}{}
+			}
+			rate.mu.Unlock()
+			return true
 		}
 		rate.mu.Unlock()
-		return true
 	}
 
 	// add tokens to entry
